@@ -724,9 +724,13 @@ class TermEval(AbsInt):
         return val
 
     # ---- calls
+    vector_syms = frozenset()  # payload symbols known to be vectors (from the kind's own product): xnp.diag of one builds a matrix
+
     def call_xnp(self, name, node, args, kwargs, ctx):
         if name in ("conj", ):
             return C(args[0])
+        if name == "diag" and len(args) == 1 and not kwargs and args[0] in self.vector_syms:
+            return ("diag", args[0])
         if name in ("cast", "array", "copy", "Parameter", "move_to"):
             return args[0]
         if name == "solvetri":
@@ -907,6 +911,20 @@ class TermEval(AbsInt):
         return ("opaque", f"{name}()")
 
     def call_external(self, dotted, node, args, kwargs, ctx):
+        if dotted == "functools.reduce" and len(node.args) >= 2 and len(args) >= 2:
+            # a fold of the factors with the Kronecker product / Kronecker sum / matrix product
+            f = node.args[0]
+            fname = f.attr if isinstance(f, ast.Attribute) else (f.id if isinstance(f, ast.Name) else None)
+            kind = {"kron": "kron", "kronsum": "ksum"}.get(fname)
+            if isinstance(f, ast.Lambda) and isinstance(f.body, ast.BinOp) and isinstance(f.body.op, ast.MatMult) and len(f.args.args) == 2 and \
+                    [x.id for x in (f.body.left, f.body.right) if isinstance(x, ast.Name)] == [a_.arg for a_ in f.args.args]:
+                kind = "mul"
+            v = args[1]
+            if kind and v[0] == "famlist":
+                return ("fam", kind, v[1], v[2], v[3])
+            if kind and v[0] in ("list", "tuple"):
+                return (kind, tuple(v[1]))
+            return ("opaque", "reduce")
         if dotted == "functools.reduce":
             return ("opaque", "reduce")
         return ("opaque", dotted)
